@@ -202,6 +202,12 @@ def run(ctx, model_ok):
         ([("march = 10", ("num", 10.0)), ("march = march * 2", ("num", 20.0)), ("march", ("num", 20.0))], 1),
         ([("est = 3", ("num", 3.0)), ("est * 2", ("num", 6.0)), ("EST + 1", ("num", 4.0))], 0),
         ([("dec = 4", ("num", 4.0)), ("x = dec + dec", ("num", 8.0)), ("dec = x", ("num", 8.0)), ("dec / 2", ("num", 4.0))], 1),
+        # names with non-ASCII letters, re-assigned and used in another letter case (the session key folds case like the lookup does)
+        ([("Ölçü = 1", ("num", 1.0)), ("ölçü = 2", ("num", 2.0)), ("ölçü", ("num", 2.0)), ("ÖLÇÜ + 1", ("num", 3.0))], 1),
+        ([("Ödeme = 1", ("num", 1.0)), ("ödeme = ödeme + 1", ("num", 2.0)), ("ödeme = ödeme + 1", ("num", 3.0)), ("ödeme", ("num", 3.0))], 2),
+        ([("çay = 3", ("num", 3.0)), ("Çay = 4", ("num", 4.0)), ("çay + 1", ("num", 5.0))], 1),
+        ([("Ürün fiyat = 5", ("num", 5.0)), ("ürün Fiyat = 7", ("num", 7.0)), ("ürün fiyat * 2", ("num", 14.0))], 1),
+        ([("цена = 5", ("num", 5.0)), ("Цена = 6", ("num", 6.0)), ("ЦЕНА * 2", ("num", 12.0))], 1),
     ]
     for _ in range(ctx.n(30, 600)):
         # random programs over month / zone names only
